@@ -1,6 +1,7 @@
 """C20 - file, stream and command-line front ends agree with the string API."""
 from __future__ import annotations
 
+import copy
 import io
 import json
 import os
@@ -107,10 +108,14 @@ def check_files(doc, text, case):
             return out
     # writers
     q = '"'
-    o = dict(quote=q)
-    t_dumps = W.dumps(d_loads, **o)
+    o = dict(case.get("opts") or {}, quote=q)
+    # (the reference is a fresh PrettyPrinter; each writer gets a copy: separate_complex_types reorders its argument)
+    t_dumps = W.PrettyPrinter(**o).pprint(copy.deepcopy(d_loads))
+    if mappyfile.dumps(copy.deepcopy(d_loads), **o) != t_dumps:
+        out.append(Discrepancy("dumps:characters", f"mappyfile.dumps wrote different characters than a PrettyPrinter with the same options {o}", case))
+        return out
     p2 = os.path.join(tmpdir(), "out_%d.map" % os.getpid())
-    mappyfile.save(d_loads, p2, **o)
+    mappyfile.save(copy.deepcopy(d_loads), p2, **o)
     with open(p2, "rb") as f:
         raw = f.read()
     try:
@@ -121,7 +126,7 @@ def check_files(doc, text, case):
         out.append(Discrepancy("save:characters", f"save wrote different characters than dumps returns: {t_save[:80]!r} vs {t_dumps[:80]!r}", case))
         return out
     s = io.StringIO(newline="")
-    mappyfile.dump(d_loads, s, **o)
+    mappyfile.dump(copy.deepcopy(d_loads), s, **o)
     if s.getvalue() != t_dumps:
         out.append(Discrepancy("dump:characters", "dump wrote different characters than dumps returns", case))
         return out
@@ -166,7 +171,13 @@ def search(acc: Acc, tier, shard, nshards):
         acc.cls("strings:non_ascii" if nonascii else "strings:ascii")
         if astral:
             acc.cls("strings:astral")
-        return check_files(doc, text, {"doc": doc, "text": text, "public": ch.chance(1, 10)})
+        opts = None
+        if ch.bool():
+            from .. import options
+
+            opts = options.draw(ch, quotes=['"'])
+            acc.cls("with_layout_options")
+        return check_files(doc, text, {"doc": doc, "text": text, "public": ch.chance(1, 10), "opts": opts})
 
     hyp_search(acc, ID, "files", shard, n, body, tier)
 
@@ -199,9 +210,17 @@ def cli_validate_case(ch, work):
     nfiles = ch.int(1, 4)
     total_errors_hint = ch.choice([None, None, 255, 256, 257, 300, 512])
     for i in range(nfiles):
-        kind = ch.choice(["valid", "invalid", "invalid", "unparseable"])
+        kind = ch.choice(["valid", "invalid", "invalid", "unparseable", "versioned", "versioned"])
         fn = f"f{i}_{kind}.map"
-        if kind == "valid":
+        if kind == "versioned":
+            # a map whose verdict depends on --version: one keyword with minVersion / maxVersion in its schema entry
+            from . import c09
+
+            ents = [e for e in c09.entries() if e[4] is not None and any(c[0][0] == "map" for c in c09.chains(e[0], 3))]
+            t_, k_, ai_, meta_, rep_ = ch.choice(ents)
+            chain = [c for c in c09.chains(t_, 3) if c[0][0] == "map"][0]
+            text = render.render(c09.build_doc(chain, rep_)).text
+        elif kind == "valid":
             text = "MAP\n  NAME 'ok'\n  LAYER\n    NAME 'x'\n    TYPE POINT\n  END\nEND\n"
         elif kind == "invalid":
             n = total_errors_hint if (total_errors_hint and "invalid" not in kinds) else ch.choice([1, 2, 3, 7, 40])
@@ -212,7 +231,7 @@ def cli_validate_case(ch, work):
             f.write(text)
         kinds.append(kind)
         files.append(fn)
-    version = ch.choice([None, 7.6, 8.0, 8.2, 6.0])
+    version = ch.choice([None, 7.6, 8.0, 8.2, 6.0, 5.0, 7.0, 7.2, 5.4, 6.2])
     args = ["validate"] + files + ([] if version is None else ["--version", str(version)])
     # expectation from the API
     exp_msgs = []   # (file name, message) in order: each needs a stdout line of its own
@@ -248,7 +267,7 @@ def cli_validate_case(ch, work):
                                f"exit status 0 with {problems} problems ({kinds})", case))
     if 0 < problems <= 255 and code not in (0, problems):
         res.append(Discrepancy("cli_validate:exit_count", f"exit status {code} for {problems} problems", case))
-    return res, case, (len(set(kinds)) >= 2 or problems >= 255)
+    return res, case, (len(set(kinds)) >= 2 or problems >= 255 or "versioned" in kinds)
 
 
 def cli_format_case(ch, work):
